@@ -22,6 +22,8 @@ def run(out, tier):
         behs.append({"src": "random-long", "steps": dc.gen_history(rng, 150, 10, 4, "filters")})
     for i in range(60 if quick else 600):
         behs.append({"src": "churn", "steps": dc.gen_churn(rng)})
+    for i in range(30 if quick else 300):
+        behs.append({"src": "flip", "steps": dc.gen_flip(rng)})
     lines, found, results = dc.run_and_validate(out, behs, "c01")
     judge(out, behs, lines, found, "C01")
 
